@@ -191,7 +191,7 @@ theorem pres_unifyGo {W : Addr → Prop} {m m' : Mem} {types ty : Word}
       have h1 : Ext W m (alloc m .caller (.array (cells.filter isTupleTy))).1 := pres_alloc (Ext.refl W _) _ _
       have h2 := pres_alloc h1 .caller (.array cells)
       refine pres_setBody h2 _ (.inr ?_)
-      simp [alloc]
+      simp
 
 /-! ### `UnmarkDeepWithPaths` -/
 
